@@ -13,7 +13,7 @@
 (* Verdict per line (printed as <<"V", json>>):                            *)
 (*   expect = ImExpect(g);  if "ok":                                       *)
 (*     accept      the program was accepted and ran                        *)
-(*     rows        rows of M and Helper = Den(ImFlatten(g))  (bags)        *)
+(*     rows        rows of main's M = Den(ImFlatten(g))  (bags)            *)
 (*     rules_once  every file's rules are in the rule set exactly once:    *)
 (*                 the number of rules, the number of distinct predicates  *)
 (*                 and the histogram of rules-per-predicate are those of   *)
@@ -44,10 +44,19 @@ RulesOnce(g, heads) ==
      /\ \A h \in ObsNames(heads) : ObsCount(heads, h) <= maxc
      /\ \A k \in 1..Len(main) : ObsCount(heads, main[k].name) = Len(main[k].rules)
 
+(* Bag equality by counting (LSem!BagMatch backtracks, which is exponential *)
+(* on a mismatch with many equal rows; the rows here are plain integers,   *)
+(* for which RowMatch is an equivalence, so counting is exact).            *)
+BagEq(es, os) ==
+  /\ Len(es) = Len(os)
+  /\ \A k \in 1..Len(es) :
+        Cardinality({j \in 1..Len(es) : es[j] = es[k]}) =
+        Cardinality({j \in 1..Len(os) : RowMatch(es[k], os[j])})
+
 RowsOk(g, obs) ==
   LET den == Den(ImFlatten(g))
   IN /\ {obs[k].p : k \in 1..Len(obs)} = {ImQuery[k] : k \in 1..Len(ImQuery)}
-     /\ \A k \in 1..Len(obs) : BagMatch(den[obs[k].p], obs[k].rows)
+     /\ \A k \in 1..Len(obs) : BagEq(den[obs[k].p], obs[k].rows)
 
 Verdict(c) ==
   LET g == c.g
